@@ -711,11 +711,17 @@ def fam_faults(tier, outdir):
     # 2. count the fault points of every scenario
     base = run_scripts_traced([[s[0], s[1], s[3]] for s in scen], outdir, "count")
     scripts, meta_l = [], []
+    pre_bad = []
     rng = random.Random(SEED)
     for si, (s, b) in enumerate(zip(scen, base)):
         obs = [t for t in b.get("trace", []) if t.get("e") == "obs"]
-        if b.get("ok") != 1 or len(obs) < 2 or obs[1]["o"]["r"] != 1:
-            raise Infra("fault scenario %d does not start cleanly: %s" % (si, json.dumps(b)[:800]))
+        if b.get("ok") != 1 or len(obs) < 2:
+            raise Infra("fault scenario %d could not be executed: %s" % (si, json.dumps(b)[:800]))
+        if obs[1]["o"]["r"] != 1:
+            # without any fault the scenario's start must succeed (TLC says so): a divergence like any other, not an infrastructure matter
+            pre_bad.append({"ok": 0, "kind": "mismatch", "fn": "start", "keys": ["r"], "key": "r", "call": s[3], "exp": {"r": 1}, "obs": obs[1]["o"],
+                            "script": [s[0], s[1], s[3]]})
+            continue
         fp = obs[1]["o"]["fpoints"]
         plans = [[[p[0], p[1], e]] for p in fp for e in FAULT_ERRNOS.get(p[2], [5])]
         npairs = (40 if tier == "quick" else 1500)
@@ -730,7 +736,7 @@ def fam_faults(tier, outdir):
     verd = run_scripts_traced(scripts, outdir, "faults")
     averd = run_scripts_traced(scripts[::4 if tier == "quick" else 1], outdir, "faults_asan", flavor="asan")
     # 3. records -> TLC
-    recs, bad = [], []
+    recs, bad = [], list(pre_bad)
     for i, (v, (si, pl, fp)) in enumerate(zip(verd, meta_l)):
         if v is None or v.get("ok") != 1:
             d = dict(v or {"kind": "lost"}); d["fn"] = "start"; d["script"] = scripts[i]; d.setdefault("kind", "crash")
@@ -893,6 +899,15 @@ def fam_conc(tier, outdir):
         v = run_scripts_traced([dry[:6]], sdir, "dry")[0]
         obs = [t for t in (v or {}).get("trace", []) if t.get("e") == "obs" and t["call"].get("e") == "conc"]
         if not obs:
+            if v and v.get("ok") == 0 and v.get("kind") in ("crash", "hang", "mismatch"):
+                # two plain starts one after the other did not get through: the code's doing, reported like any divergence
+                d = dict(v); d["script"] = dry[:6]; d.setdefault("fn", "start"); d.setdefault("call", dry[5])
+                if agg is None:
+                    agg = {"family": "conc", "tlc": {"states": 0, "transitions": 0, "depth": 0}, "scripts": 1, "replayed": 1, "ok": 0, "bad": [d],
+                           "samples": [], "wall_tlc": 0.0, "asan_replayed": 0, "replay_stride": 1}
+                else:
+                    agg["bad"].append(d)
+                continue
             raise Infra("ConcStart dry run failed: %s" % json.dumps(v)[:800])
         n1, n2 = obs[0]["o"]["yields"]
         cfg = os.path.join(sdir, "ConcStart.cfg")
@@ -1048,10 +1063,17 @@ def fam_optprod(tier, outdir):
     bad, records, judged = [], 0, 0
     for p in procs:
         out, _ = p.communicate()
-        if p.returncode != 0:
+        if p.returncode == 2:
             raise Infra("optsweep failed")
+        if p.returncode != 0:
+            # the process running the library died in the middle of the sweep (a signal, a sanitizer abort): that is the code's doing
+            bad.append({"ok": 0, "kind": "optprod", "fn": "start", "call": {"fn": "start", "optprod": "process died"}, "obs": {"status": p.returncode},
+                        "script": {"fn": "start", "optprod": "process died", "status": p.returncode}})
         for ln in out.splitlines():
-            v = json.loads(ln)
+            try:
+                v = json.loads(ln)
+            except Exception:
+                continue
             if v.get("ok") == 1:
                 records += v["records"]; judged += v["judged"]
             else:
